@@ -54,6 +54,9 @@ FOREIGN_POOL = [
     "typedef struct MixerVtbl_Opaque MixerVtbl_Opaque;\n",
     "typedef struct TraitObjLike_Box TraitObjLike_Box;\n",
     "/**\n * An opaque user handle.\n */\ntypedef struct SessionContainer SessionContainer;\n",
+    # C declarations whose comments (copied from Rust docs) or guarded blocks merely MENTION C++ constructs: the header is still a C header
+    "/**\n * A growable list. C++ users see `template<typename T> struct Vec`,\n * e.g. `using CounterList = Vec<Counter>`.\n */\ntypedef struct CounterVec {\n    uint32_t *data;\n    uintptr_t len;\n} CounterVec;\n",
+    "#ifdef __cplusplus\n  #include <cstdint>\n#endif\n",
 ]
 FOREIGN_CTX = "/**\n * A user type whose name ends like a context-generic struct.\n */\ntypedef struct Widget_Context {\n    int32_t depth;\n} Widget_Context;\n"
 FOREIGN_FNS = ["int32_t user_drop(struct Pair *p);\n", "void ctx_arc_clone_all(void);\n", "uint32_t settings_flags(const struct Settings *s);\n"]
